@@ -266,6 +266,21 @@ pub fn write_ink_list(list: &InkList) -> serde_json::Value {
 
     jobj.insert("list".to_owned(), serde_json::Value::Object(jlist));
 
+    // An empty list has no items to tell which lists it belongs to: save the
+    // names of its origins so that LIST_ALL / LIST_INVERT still work after a load.
+    if list.items.is_empty() {
+        let mut origin_names = list.get_origin_names();
+        for origin in list.origins.borrow().iter() {
+            if !origin_names.iter().any(|name| name == origin.get_name()) {
+                origin_names.push(origin.get_name().to_string());
+            }
+        }
+
+        if !origin_names.is_empty() {
+            jobj.insert("origins".to_owned(), json!(origin_names));
+        }
+    }
+
     serde_json::Value::Object(jobj)
 }
 
@@ -285,6 +300,11 @@ pub fn write_choice(choice: &Choice) -> serde_json::Value {
     );
 
     jobj.insert("tags".to_owned(), write_choice_tags(choice));
+
+    // Only written when set: a hidden fallback choice must stay hidden after a load.
+    if choice.is_invisible_default {
+        jobj.insert("isInvisibleDefault".to_owned(), json!(true));
+    }
 
     serde_json::Value::Object(jobj)
 }
